@@ -5,7 +5,7 @@ CONSTANTS
   PermuteModules = FALSE
   Ptrs = {4, 8}
   PipeBases = {1, 2, 3, 4, 5, 6}
-  PipeAlpha = "small"
+  PipeAlpha = "full"
 INVARIANTS Replay
 CHECK_DEADLOCK FALSE
 VIEW View
